@@ -17,8 +17,9 @@ from harness import coqfmt as cf
 PROP = "C10"
 COQ = dict(imports=["Model.Batch", "Spec.C10"], in_ty="input10", out_ty="output10",
            corr="corr_C10", decide="check_C10", model="model10")
-THEOREMS = ["C10_decider_sound", "C10_main", "C10_schema", "C10_rows", "C10_rows_cell", "C10_rows_default", "C10_untouched", "C10_no_temp",
-            "C10_constraint_by_new_name_refuted", "C10_readd_last_column_refuted", "C10_added_column_order_refuted"]
+THEOREMS = ["C10_decider_sound", "C10_decider_complete", "C10_main", "C10_tsort_linear_extension", "C10_schema_add", "C10_schema", "C10_rows", "C10_rows_cell", "C10_rows_default", "C10_untouched", "C10_no_temp",
+            "C10_constraint_by_new_name_refuted", "C10_readd_last_column_refuted", "C10_added_column_order_refuted",
+            "C10_selfref_fk_target_refuted"]
 TRUSTED = [
     "sqlalchemy.util.topological.sort (SQLAlchemy's, used for column ordering): transcribed as sa_tsort for the correspondence; "
     "the theorems that involve it take it as a Section variable",
@@ -28,9 +29,14 @@ TRUSTED = [
     "SQLAlchemy _type_affinity of the catalogue types (INTEGER,BIGINT | TEXT,VARCHAR | NUMERIC) as used by SQLiteImpl.cast_for_batch_migrate",
     "the statement sequence of _create itself is C11's model (Model/BatchFail.v); C10_no_temp is proved there",
 ]
-ASSUME = ["partial_reordering, naming conventions, Boolean/Enum type-bound constraints, computed/identity columns and comments are outside the model; "
-          "copy_from is driven with a Table object equal to the reflected one (same model); recreate='auto' is modelled "
-          "(requires_recreate / CommandError for insert_before/after / the ALTER path direct_ops) and compared, but outside the refinement theorems",
+ASSUME = ["modelled in Model/Batch.v: __init__/_grab_table_elements (incl. the skip of unnamed CHECKs on reflected tables, named vs unnamed PK, "
+          "primary_key flags), add_column + _setup_dependencies_for_add_column (with and without partial_reordering), drop_column, alter_column "
+          "(+ SQLiteImpl.cast_for_batch_migrate, stacked casts), add/drop_constraint, create/drop_index, _adjust_self_columns_for_partial_reordering, "
+          "_transfer_elements_to_new_table (table_args, silent omission of constraints), _gather_indexes_from_both_tables, the INSERT..SELECT mapping, "
+          "BatchOperationsImpl._should_recreate / SQLiteImpl.requires_recreate_in_batch for recreate='always'|'auto'|'never' incl. the CommandError "
+          "for insert_before/after and the ALTER paths; partial indexes: the reflected sqlite_where predicate is part of an index (opaque text + the column names it mentions; carried by the Index kwargs, never rewritten: CREATE INDEX fails when a mentioned column is gone); NOT modelled: table_kwargs, reflect_args/reflect_kwargs, copy_from tables that differ from the "
+          "database (copy_from is driven with an identical Table), col_named_constraints, Boolean/Enum type-bound constraints, computed/identity "
+          "columns, comments; naming conventions enter through the reflected names (harness), not through the Coq model",
           "existing rows satisfy the constraints the batch adds (violations are C11's subject)"]
 RULE = ("table t = id INTEGER + 2-5 columns over {INTEGER,BIGINT,TEXT,VARCHAR(20),NUMERIC(10,2)} with nullability/defaults, "
         "primary key (id) or a COMPOSITE primary key over two columns mostly declared against the column order, unnamed or NAMED (30%), "
@@ -52,8 +58,13 @@ LEVEL_TEXT = ("Machine-checked: for every table description and every operation 
               "Alembic accept, the new table equals the edited description, every surviving column is copied from its source (cast iff the type "
               "class changed), untouched elements are identical, and the successful statement sequence leaves no temporary table. "
               "Three deviations of the faithful model from the specification are proved as closed witnesses and reproduced on the real code.")
-LEVEL_NOTE = ("Partial: add_column ordering goes through SQLAlchemy's topological sort (modelled and compared on every run, not inside the "
-              "order theorem); SQLite CAST/DEFAULT are oracles; reflection and DDL spelling are observed, not modelled.")
+LEVEL_NOTE = ("The main theorem covers every operation of the model in any order and number, add_column appended or with insert_before= / "
+              "insert_after= naming one of the table's own columns (the topological sort is proved to be a linear extension that keeps the existing "
+              "order and therefore puts every added column into the gap the specification puts it into; C10_main, C10_tsort_linear_extension, "
+              "C10_schema_add); insert_before/insert_after naming a column added by the same batch or both at once, partial_reordering, table_args, "
+              "unnamed constraints, recreate='auto' are modelled, compared exactly and decided on every run but outside the main theorem; "
+              "recreate='never' (no recreate: outside the property) is modelled and compared exactly; SQLite CAST/DEFAULT are oracles; reflection "
+              "and DDL spelling are observed, not modelled.")
 
 TYPES = ["INTEGER", "BIGINT", "TEXT", "VARCHAR(20)", "NUMERIC(10, 2)"]
 TMPP = "_alembic_tmp_"
@@ -61,6 +72,7 @@ FINDINGS = {
     "byname": "C10-constraint-on-unknown-or-renamed-column-silently-dropped",
     "readd": "C10-add-existing-last-column-loses-its-data",
     "nbrdrop": "C10-added-column-misplaced-when-neighbour-dropped-later",
+    "selfref": "C10-selfref-fk-target-not-renamed",
 }
 
 
@@ -79,6 +91,23 @@ def base():
 def fixed():
     def s(ops, **kw):
         d = base(); d["ops"] = ops; d.update(kw); return d
+    # partial indexes (CREATE [UNIQUE] INDEX ... WHERE ...): reflected with sqlite_where, carried over by **idx_existing.kwargs
+    part = dict(indexes=[["ux_a", ["a"], True, "c > 0"], ["ix_b", ["b"], False, "b is not null"]], uniques=[])
+    yield s([["alter", "a", {"nullable": False}]], rows=[[1, 1, "x", 1], [2, 1, "y", 0]], **part)   # not mentioned: kept WITH the predicate (a=1 twice is legal)
+    yield s([["alter", "a", {"name": "a2"}]], **part)                                  # an indexed column renamed: predicate untouched
+    yield s([["alter", "c", {"name": "c2"}]], **part)                                  # a predicate column renamed: the text still says c -> OperationalError
+    yield s([["drop", "c"]], **part)                                                   # a predicate column dropped -> OperationalError
+    yield s([["drop_index", "ux_a"], ["drop", "c"]], **part)
+    yield s([["create_index", "ixn", ["a"], False, "c > 1"]], **part)                  # a new partial index
+    yield s([["create_index", "ixn", ["a"], True, "c > 1"]], mode="auto", **part)      # ... on the ALTER path
+    yield s([["alter", "c", {"name": "c2"}]], mode="never", **part)                    # SQLite's RENAME COLUMN rewrites the predicate
+    yield s([["drop", "c"]], mode="never", **part)
+    yield s([["alter", "b", {"type": 1}]], copy_from=True, **part)
+    # insert_before near the head of the table: the left neighbour of the SECOND column is the first one
+    yield s([["add", "z", 0, True, None, "a", None]])
+    yield s([["add", "h", 0, True, None, "id", None], ["add", "g", 0, True, None, "a", None]])
+    yield s([["add", "g", 0, True, None, "a", None], ["add", "q", 0, True, None, "g", None]])
+    yield s([["add", "g", 0, True, None, "a", None], ["add", "h", 0, True, None, "id", None]])
     yield s([["alter", "a", {"name": "a2"}], ["add_unique", "uq_a", ["a2"]]])          # constraint by NEW name: silently dropped
     yield s([["alter", "a", {"name": "a2"}], ["add_unique", "uq_a", ["a"]]])
     yield s([["alter", "a", {"name": "a2"}], ["create_index", "ix_a", ["a2"], False]])   # KeyError
@@ -133,6 +162,31 @@ def fixed():
     yield s([["drop", "a"], ["add", "z", 0, True, None, "b", None]])                    # insert_before b, neighbour a already dropped
     yield s([["drop_con", "uq_c", "unique"], ["drop", "c"], ["add", "z", 0, True, None, None, "b"]])
     yield s([["add", "z", 0, True, None, None, "a"], ["drop", "b"]], indexes=[])        # the implicit neighbour is dropped later
+    yield s([["alter", "a", {"nullable": True}]], partial=[["c", "a"]])                 # columns come out (id, b, c, a) or so: c before a
+    yield s([["add", "z", 0, True, None, None, None]], partial=[["z", "id"], ["b", "a"]])
+    yield s([["add", "z", 0, True, None, "a", None]], partial=[["a", "z"]])             # contradicts insert_before: CircularDependencyError
+    yield s([["drop", "a"]], partial=[["c", "a", "b"]], indexes=[])
+    yield s([["alter", "b", {"name": "b2"}]], partial=[["c", "b", "id"]], indexes=[])
+    yield s([["alter", "a", {"nullable": True}]], targs=[["ckx0", "1 = 1"]])
+    yield s([["drop_con", "uq_c", "unique"], ["drop", "c"]], targs=[["ckx0", "1 = 1"], ["ckx1", "2 = 2"]], partial=[["b", "a"]])
+    un = dict(uniques=[["uq_c", ["c"]], [None, ["a"]]], fks=[[None, ["c"], "p", ["id"]]], checks=[[None, "3 > 2", None]])
+    yield s([["alter", "b", {"nullable": True}]], **un)                                   # unnamed UNIQUE / FK carried, unnamed CHECK skipped (reflected)
+    yield s([["alter", "b", {"nullable": True}]], copy_from=True, **un)                   # ... carried with copy_from
+    yield s([["alter", "a", {"name": "a2"}]], **un)
+    yield s([["drop", "a"]], **un)                                                        # the unnamed UNIQUE over a goes with it
+    yield s([["alter", "b", {"nullable": True}]], nc=True, **un)                          # naming convention: they get names
+    yield s([["drop_con", "uq_t_a", "unique"]], nc=True, **un)                            # ... and can be dropped by them
+    yield s([["drop_con", "fk_t_c_p", "foreignkey"], ["alter", "a", {"name": "a2"}]], nc=True, **un)
+    yield s([["drop_con", "uq_t_a", "unique"]], **un)                                     # without the convention: ValueError
+    yield s([["create_index", "ixn", ["a"], False]], mode="auto", **un)                   # no recreate: nothing is lost
+    yield s([["add", "z", 0, True, "7", None, None], ["drop", "a"], ["alter", "b", {"name": "b2"}], ["create_index", "ixn", ["b2"], False]], mode="never", indexes=[])
+    yield s([["alter", "a", {"nullable": False}]], mode="never")                        # SQLite cannot: OperationalError
+    yield s([["add_unique", "uq_a", ["a"]]], mode="never")                              # NotImplementedError
+    yield s([["drop_con", "uq_c", "unique"]], mode="never")
+    yield s([["drop", "c"]], mode="never")                                              # column of a UNIQUE constraint: refused by SQLite
+    yield s([["drop", "b"]], mode="never")                                              # indexed column
+    yield s([["add", "z", 0, True, None, "a", None]], mode="never")                     # CommandError
+    yield s([["alter", "a", {"name": "b"}]], mode="never")
     yield s([["add", "z", 0, True, "7", None, None], ["create_index", "ix_z", ["z", "a"], False], ["drop_index", "ix_b"]], mode="auto")
     yield s([["add", "z", 0, True, None, "a", None]], mode="auto")                     # CommandError
     yield s([["drop", "a"], ["add", "z", 0, True, None, "b", None]], mode="auto")       # recreate already needed: accepted
@@ -183,11 +237,41 @@ def rand_scenario(rnd):
         fks.append(["fk_self", [rnd.choice(names)], "t", ["id"]])
     for k in range(rnd.randint(0, 2)):
         indexes.append(["ix%d" % k, rnd.sample(names, rnd.randint(1, min(2, len(names)))), rnd.random() < 0.2])
-    scn = dict(cols=cols, uniques=uniques, checks=checks, fks=fks, indexes=indexes, rows=rows, ops=[], pk=pk,
+        if rnd.random() < 0.3:                      # a partial index: WHERE over some column (often not an indexed one)
+            indexes[-1].append("%s is not null" % rnd.choice(names))
+    # unnamed constraints: carried over by position in unnamed_constraints (UNIQUE, FK), skipped when reflected (CHECK)
+    used_u = {x for u in uniques for x in u[1]} | set(pk)
+    cand_u = [n for n in names if n not in used_u]
+    if cand_u and rnd.random() < 0.2:
+        uniques.append([None, [rnd.choice(cand_u)]])
+    cand_f = [n for n in names if n not in {x for f in fks for x in f[1]}]
+    if cand_f and rnd.random() < 0.15:
+        fks.append([None, [rnd.choice(cand_f)], "p", ["id"]])
+    if rnd.random() < 0.15:
+        checks.append([None, "3 > 2", None])
+    nc = any(u[0] is None for u in uniques + fks) and rnd.random() < 0.5
+    scn = dict(cols=cols, uniques=uniques, checks=checks, fks=fks, indexes=indexes, rows=rows, ops=[], pk=pk, nc=nc,
                pkname=("pk_t" if rnd.random() < 0.3 else None),
-               mode=("auto" if rnd.random() < 0.3 else "always"), copy_from=rnd.random() < 0.25)
-    gen_ops(rnd, scn, light=(scn["mode"] == "auto" and rnd.random() < 0.6))
+               mode=rnd.choice(["always"] * 12 + ["auto"] * 5 + ["never"] * 3), copy_from=rnd.random() < 0.25)
+    gen_ops(rnd, scn, light=((scn["mode"] == "auto" and rnd.random() < 0.6) or (scn["mode"] == "never" and rnd.random() < 0.4)))
+    if scn["mode"] == "always" and rnd.random() < 0.12:
+        # partial_reordering: 1-2 tuples over the column names the batch knows (original keys and added ones)
+        pool = ["id"] + names + [o[1] for o in scn["ops"] if o[0] == "add"]
+        tuples = []
+        for _ in range(rnd.randint(1, 2)):
+            if len(pool) >= 2:
+                tuples.append(rnd.sample(pool, rnd.randint(2, min(3, len(pool)))))
+        scn["partial"] = tuples
+    if scn["mode"] == "always" and rnd.random() < 0.1:
+        scn["targs"] = [["ckx%d" % j, "%d = %d" % (j + 1, j + 1)] for j in range(rnd.randint(1, 2))]
     return scn
+
+
+NAMING = {"uq": "uq_%(table_name)s_%(column_0_name)s", "fk": "fk_%(table_name)s_%(column_0_name)s_%(referred_table_name)s"}
+
+
+def conv_name(kind, cols, rtable):
+    return "uq_t_%s" % cols[0] if kind == "unique" else "fk_t_%s_%s" % (cols[0], rtable)
 
 
 def gen_ops(rnd, scn, light=False):
@@ -195,14 +279,18 @@ def gen_ops(rnd, scn, light=False):
     cols["id"] = ["id", 0, False, None]
     keys = ["id"] + [c[0] for c in scn["cols"]]          # live keys
     curname = {k: k for k in keys}
-    check_cols = {c[2] for c in scn["checks"]}
+    check_cols = {c[2] for c in scn["checks"] if c[2] is not None}
     pkcols = list(scn.get("pk", ["id"]))
     uniq_cols = set(pkcols) | {x for u in scn["uniques"] for x in u[1]} | {x for i in scn["indexes"] if i[2] for x in i[1]}
     idx_cols = {x for i in scn["indexes"] for x in i[1]}
-    con_names = [u[0] for u in scn["uniques"]] + [c[0] for c in scn["checks"]] + [f[0] for f in scn["fks"]]
-    con_kind = {u[0]: "unique" for u in scn["uniques"]}
+    use_nc = bool(scn.get("nc")) and not scn.get("copy_from")
+    uq_name = lambda u: u[0] if u[0] is not None else (conv_name("unique", u[1], None) if use_nc else None)
+    fk_name = lambda f: f[0] if f[0] is not None else (conv_name("fk", f[1], f[2]) if use_nc else None)
+    con_kind = {uq_name(u): "unique" for u in scn["uniques"]}
     con_kind.update({c[0]: "check" for c in scn["checks"]})
-    con_kind.update({f[0]: "foreignkey" for f in scn["fks"]})
+    con_kind.update({fk_name(f): "foreignkey" for f in scn["fks"]})
+    con_kind.pop(None, None)
+    con_names = list(con_kind)
     if scn.get("pkname"):
         con_names.append(scn["pkname"]); con_kind[scn["pkname"]] = "primary"
         if rnd.random() < 0.4:
@@ -336,6 +424,8 @@ def gen_ops(rnd, scn, light=False):
             cs = rnd.sample(keys, min(len(keys), rnd.randint(1, 2)))
             idx_cols |= set(cs)
             ops.append(["create_index", "ixn%d" % len(ops), cs, False])
+            if rnd.random() < 0.2:
+                ops[-1].append("%s is not null" % rnd.choice(keys + ["nope"] if rnd.random() < 0.1 else keys))
         elif kind == "drop_index" and idx_names:
             n = rnd.choice(idx_names); ops.append(["drop_index", n])
             if rnd.random() < 0.9:
@@ -397,8 +487,28 @@ def conc(c):
     return "(mkCon %s %s %s)" % (cf.string(c["name"]), kk, names(c["cols"]))
 
 
+def wherec(w):
+    return "None" if not w else "(Some (%d%%N, %s))" % (w[0], names(w[1]))
+
+
 def idxc(x):
-    return "(mkIndex %s %s %s)" % (cf.string(x["name"]), names(x["cols"]), cf.boolean(x["unique"]))
+    return "(mkIndex %s %s %s %s)" % (cf.string(x["name"]), names(x["cols"]), cf.boolean(x["unique"]), wherec(x.get("where")))
+
+
+_PRED_KW = {"is", "not", "null", "and", "or", "in", "like", "between"}
+
+
+def pred_norm(text):
+    """a partial-index predicate as (template, mentioned column names): the text with every column name replaced by its
+    position among the mentioned names — SQLite's own RENAME COLUMN rewrites the names inside, alembic never does"""
+    import re as _re
+    t = str(text).replace('"', "")
+    ment = []
+    for w in _re.findall(r"[A-Za-z_][A-Za-z0-9_]*", t):
+        if w.lower() not in _PRED_KW and w not in ment:
+            ment.append(w)
+    tpl = _re.sub(r"[A-Za-z_][A-Za-z0-9_]*", lambda m: "{%d}" % ment.index(m.group(0)) if m.group(0) in ment else m.group(0).lower(), t)
+    return tpl, ment
 
 
 def val(v):
@@ -448,13 +558,16 @@ def opc(o, tok):
     if k == "drop_con":
         return "(ODropConstraint %s)" % cf.string(o[1])
     if k == "create_index":
-        return "(OCreateIndex (mkIndex %s %s %s))" % (cf.string(o[1]), names(o[2]), cf.boolean(o[3]))
+        w = None
+        if len(o) > 4 and o[4]:
+            tpl, ment = pred_norm(o[4]); w = [tok(tpl), ment]
+        return "(OCreateIndex (mkIndex %s %s %s %s))" % (cf.string(o[1]), names(o[2]), cf.boolean(o[3]), wherec(w))
     if k == "drop_index":
         return "(ODropIndex %s)" % cf.string(o[1])
     raise ValueError(o)
 
 
-ERR = {"CommandError": "ECommandB", "KeyError": "EKeyError", "ValueError": "EValueError", "CircularDependencyError": "ECircular",
+ERR = {"NotImplementedError": "ENotImplementedB", "CommandError": "ECommandB", "KeyError": "EKeyError", "ValueError": "EValueError", "CircularDependencyError": "ECircular",
        "DuplicateColumnError": "EDuplicateColumn", "OperationalError": "EOperationalB"}
 
 
@@ -507,13 +620,22 @@ def run_case(scn):
             cons.append(dict(name=c["name"], kind=["check", tok(c["sqltext"])], cols=[]))
         for f in insp.get_foreign_keys(tname):
             cons.append(dict(name=f["name"], kind=["fk", f["referred_table"], list(f["referred_columns"])], cols=list(f["constrained_columns"])))
-        for c in cons:
+        uchecks = []
+        for c in list(cons):
             if c["name"] is None:
-                raise RuntimeError("unnamed constraint reflected")
-        cons.sort(key=lambda c: c["name"])
-        idx = sorted((dict(name=x["name"], cols=list(x["column_names"]), unique=bool(x["unique"])) for x in insp.get_indexes(tname)),
-                     key=lambda x: x["name"])
-        return dict(cols=cols, pk=pk, cons=cons, idx=idx)
+                if c["kind"][0] == "check":
+                    cons.remove(c); c["name"] = "\x00c"; uchecks.append(c)
+                else:
+                    c["name"] = "\x00" + c["kind"][0][0]        # unnamed UNIQUE / FOREIGN KEY: carried in unnamed_constraints
+        cons.sort(key=lambda c: (c["name"], c["cols"]))
+        idx = []
+        for x in insp.get_indexes(tname):
+            w = (x.get("dialect_options") or {}).get("sqlite_where")
+            if w is not None:
+                tpl, ment = pred_norm(w); w = [tok(tpl), ment]
+            idx.append(dict(name=x["name"], cols=list(x["column_names"]), unique=bool(x["unique"]), where=w))
+        idx.sort(key=lambda x: x["name"])
+        return dict(cols=cols, pk=pk, cons=cons, idx=idx, uchecks=uchecks)
 
     td = tempfile.mkdtemp(prefix="avc10")
     try:
@@ -534,8 +656,10 @@ def run_case(scn):
             for (n, cs, rt, rc) in scn["fks"]:
                 args.append(sa.ForeignKeyConstraint(list(cs), ["%s.%s" % (rt, x) for x in rc], name=n))
             tt = sa.Table("t", m, *args)
-            for (n, cs, u) in scn["indexes"]:
-                sa.Index(n, *[tt.c[x] for x in cs], unique=u)
+            for ix in scn["indexes"]:
+                n, cs, u = ix[0], ix[1], ix[2]
+                kw = dict(sqlite_where=sa.text(ix[3])) if len(ix) > 3 and ix[3] else {}
+                sa.Index(n, *[tt.c[x] for x in cs], unique=u, **kw)
             return m, tt
         m, t = mk_table()
         m.create_all(e)
@@ -572,6 +696,12 @@ def run_case(scn):
             with e.begin() as c:
                 op = Operations(MigrationContext.configure(c))
                 bkw = {}
+                if scn.get("nc"):
+                    bkw["naming_convention"] = dict(NAMING)
+                if scn.get("partial"):
+                    bkw["partial_reordering"] = [tuple(t_) for t_ in scn["partial"]]
+                if scn.get("targs"):
+                    bkw["table_args"] = tuple(sa.CheckConstraint(txt, name=n) for n, txt in scn["targs"])
                 if scn.get("copy_from"):
                     bkw["copy_from"] = mk_table()[1]          # a complete Table object instead of reflection
                 with op.batch_alter_table("t", recreate=scn.get("mode", "always"), **bkw) as b:
@@ -610,13 +740,16 @@ def run_case(scn):
                             else:
                                 b.drop_constraint(o[1], type_=o[2])
                         elif k == "create_index":
-                            b.create_index(o[1], list(o[2]), unique=bool(o[3]))
+                            kwi = dict(sqlite_where=sa.text(o[4])) if len(o) > 4 and o[4] else {}
+                            b.create_index(o[1], list(o[2]), unique=bool(o[3]), **kwi)
                         elif k == "drop_index":
                             b.drop_index(o[1])
                         else:
                             raise RuntimeError("bad op %r" % (o,))
         except CommandError:
             err = "CommandError"
+        except NotImplementedError:
+            err = "NotImplementedError"
         except (KeyError, ValueError) as x:
             err = type(x).__name__
         except sa.exc.CircularDependencyError:
@@ -639,19 +772,39 @@ def run_case(scn):
     finally:
         shutil.rmtree(td, ignore_errors=True)
 
-    # check texts of added checks must be interned too, before encoding the ops
-    cin = "(mkIn10 %s %s %s %s %s %s)" % (
-        tblc(before), rowsc(rows_before), cf.lst(opc(o, tok) for o in scn["ops"]),
+    # the table as ApplyBatchImpl sees it: under a naming convention the reflected unnamed UNIQUE / FK constraints carry
+    # the conventional names (reflection runs on MetaData(naming_convention=...)); not with copy_from
+    seen = dict(before)
+    recreates = scn.get("mode", "always") == "always" or (scn.get("mode") == "auto" and any(o[0] not in ("add", "create_index", "drop_index") for o in scn["ops"]))
+    if scn.get("nc") and not scn.get("copy_from") and recreates:      # (no recreate: no reflection, nothing gets a name)
+        seen["cons"] = []
+        for c_ in before["cons"]:
+            c_ = dict(c_)
+            if c_["name"] == "\x00u":
+                c_["name"] = conv_name("unique", c_["cols"], None)
+            elif c_["name"] == "\x00f":
+                c_["name"] = conv_name("fk", c_["cols"], c_["kind"][1])
+            seen["cons"].append(c_)
+    after_d = None
+    if after is not None:
+        after_d = dict(after)
+        after_d["cons"] = sorted(after["cons"] + after["uchecks"], key=lambda c_: (c_["name"], c_["cols"]))
+    cin = "(mkIn10 %s %s %s %s %s %s %s %s %s %s %s)" % (
+        tblc(seen), rowsc(rows_before), cf.lst(opc(o, tok) for o in scn["ops"]),
         cf.lst("(%d, %s, %s)" % (t_, val(a), val(b_)) for (t_, a, b_) in casts),
-        cf.lst("(%s, %s)" % (cf.string(n), val(v)) for (n, v) in dflts), cf.boolean(scn.get("mode", "always") == "always"))
+        cf.lst("(%s, %s)" % (cf.string(n), val(v)) for (n, v) in dflts), cf.boolean(scn.get("mode", "always") == "always"),
+        cf.lst(names(t_) for t_ in scn.get("partial") or []),
+        cf.lst("(mkCon %s (KCheck %d) [])" % (cf.string(n), tok(txt)) for n, txt in scn.get("targs") or []),
+        cf.boolean(not scn.get("copy_from")), cf.lst(conc(c_) for c_ in before["uchecks"]), cf.boolean(scn.get("mode") == "never"))
     if err is None:
-        cout = "(OutOk %s %s %s)" % (descc(after), rowsc(rows_after), cf.boolean(tmp_left))
+        cout = "(OutOk %s %s %s)" % (descc(after_d), rowsc(rows_after), cf.boolean(tmp_left))
         out = dict(ok=dict(desc=after, rows=rows_after, tmp_left=tmp_left))
     else:
         cout = "(OutErr %s)" % ERR.get(err, "EOtherB")
         out = dict(err=err)
-    shape = ("ok" if err is None else err.split(":")[-1]) + "-n%d" % len(scn["ops"]) + ("-auto" if scn.get("mode") == "auto" else "") + \
-        ("-copyfrom" if scn.get("copy_from") else "")
+    shape = ("ok" if err is None else err.split(":")[-1]) + "-n%d" % len(scn["ops"]) + ("-auto" if scn.get("mode") == "auto" else "-never" if scn.get("mode") == "never" else "") + \
+        ("-copyfrom" if scn.get("copy_from") else "") + ("-partial" if scn.get("partial") else "") + ("-targs" if scn.get("targs") else "") + \
+        ("-nc" if scn.get("nc") else "") + ("-unnamed" if (before["uchecks"] or any(c_["name"].startswith("\x00") for c_ in before["cons"])) else "")
     return dict(cin=cin, cout=cout, out=out, nontrivial=bool(err is None and rows_before), shape=shape)
 
 
@@ -718,4 +871,59 @@ def classify(scn, out):
         pass
     if byname:
         return FINDINGS["byname"]
+    # a column that a self-referential foreign key refers to was renamed and the recreated table still names the old column
+    targets = set()
+    for f in scn.get("fks") or []:
+        if f[2] == "t":
+            targets.update(f[3])
+    for o in scn["ops"]:
+        if o[0] == "add_fk" and o[3] == "t":
+            targets.update(o[4])
+    renamed = {k for k, n in cur.items() if n != k and k in targets}
+    final_names = {c[0] for c in d["cols"]}
+    for c in d["cons"]:
+        if c["kind"][0] == "fk" and c["kind"][1] == "t" and any(r in renamed for r in c["kind"][2]):     # still the OLD name of a renamed column
+            return FINDINGS["selfref"]
     return None
+
+
+def _strings(x, acc):
+    if isinstance(x, str):
+        acc.add(x)
+    elif isinstance(x, dict):
+        for v in x.values():
+            _strings(v, acc)
+    elif isinstance(x, (list, tuple)):
+        for v in x:
+            _strings(v, acc)
+    return acc
+
+
+def canary(scn, rec):
+    """corrupted outputs the decider must reject: a row lost, a surviving column missing from the recreated table, an untouched
+    constraint missing, the temporary table left behind (recreate='never' is outside the property: no canaries there)"""
+    out = rec["out"]
+    if "ok" not in out or scn.get("mode") == "never":
+        return []
+    ok = out["ok"]
+    d = dict(ok["desc"])
+    d["cons"] = sorted(d["cons"] + d.get("uchecks", []), key=lambda c_: (c_["name"], c_["cols"]))
+    rows = ok["rows"]
+    bad = ["(OutOk %s %s true)" % (descc(d), rowsc(rows))]                                   # the temporary table is still there
+    if rows:
+        bad.append("(OutOk %s %s false)" % (descc(d), rowsc(rows[1:])))                     # a row lost
+    ment = _strings(scn["ops"], set())
+    # a surviving original column nobody mentioned disappears from the table (its values with it)
+    orig = ["id"] + [c[0] for c in scn["cols"]]
+    for j, c in enumerate(d["cols"]):
+        if c[0] in orig and c[0] not in ment:
+            d2 = dict(d, cols=d["cols"][:j] + d["cols"][j + 1:])
+            bad.append("(OutOk %s %s false)" % (descc(d2), rowsc([r[:j] + r[j + 1:] for r in rows])))
+            break
+    # a named constraint nobody mentioned (neither it nor its columns) is gone
+    for j, c in enumerate(d["cons"]):
+        if not c["name"].startswith("\x00") and c["name"] not in ment and not any(x in ment for x in c["cols"]) and c["kind"][0] != "primary":
+            d3 = dict(d, cons=d["cons"][:j] + d["cons"][j + 1:])
+            bad.append("(OutOk %s %s false)" % (descc(d3), rowsc(rows)))
+            break
+    return bad
